@@ -32,3 +32,4 @@ def run(ck):
     strings.base_numeral(ck, "C11.R7")
     strings.prefix_helper(ck, "C11.R8")
     strings.rank_dispatch(ck, "C11.R9")
+    routes.forwarded_defaults(ck, "C11.R5")            # from_bin / constructor wrappers do not override the format a like= reference or the string carries
